@@ -131,7 +131,7 @@ TrOutput == /\ HasEvent("Output")
 
 \* ---- a database object is queried again (C03): the index must be the one built before
 TrNewLookup == /\ HasEvent("NewLookup")
-               /\ NewLookup(E.seqs2)
+               /\ NewLookup(E.seqs2, E.k)
                /\ Consume(Named([db_mutated |-> E.db_changed]))
 
 TraceNext == TrCheckInput \/ TrSdBuildSilent \/ TrBuild \/ TrJoin \/ TrJoinLimited \/ TrOutput \/ TrNewLookup
